@@ -4,7 +4,7 @@ CONSTANTS
   JAllowFallsThrough = FALSE
   TBlockInverted = FALSE
   TNo172 = TRUE
-  Devs = {"names-never-resolved", "ipv6-literal-cut-at-colon", "list-items-compared-as-typed"}
+  Devs = {"names-never-resolved", "ipv6-literal-cut-at-colon", "list-items-compared-as-typed", "empty-allow-list-value-routes-nothing"}
   Tier = "quick"
   Impl = "ts"
 SPECIFICATION Spec
